@@ -30,6 +30,8 @@ class ReplyDomain(Domain):
         self.reply = reply
         self.noreply = noreply
         self.exch = exch_names
+        # request/response functions whose noreply result is an empty list (they return `[]`)
+        self.list_results = {n for n in exch_names if any(isinstance(r, ast.Return) and isinstance(r.value, ast.List) and not r.value.elts for r in ast.walk(prog.method("Client", n).node))}
 
     def name_load(self, name, state, node=None):
         if name == "noreply" and not state.has("noreply"):
@@ -47,8 +49,14 @@ class ReplyDomain(Domain):
         name = call_name(node)
         if name.startswith("self.") and name[5:] in self.exch:
             if self.noreply:
-                return [("ok", Opaque("noreply-result"), state)]
+                return [("ok", TupleV(()), state)] if name[5:] in self.list_results else [("ok", Opaque("noreply-result"), state)]
             return [("ok", TupleV((Const(self.reply),)), state)]
+        if name.startswith("self.") and name.count(".") == 1:
+            m = self.prog.cls("Client").methods.get(name[5:])
+            if m is not None and name[5:].startswith("_") and name[5:] not in ("_connect", "_check_integer", "_check_cas", "check_key"):
+                res = self.inline(node, m, args, kwargs, state)
+                if res is not None:
+                    return res
         if isinstance(fval, tuple) and fval and fval[0] == "cmeth" and fval[2] in ("partition", "startswith", "split", "decode", "isdigit", "strip", "find") and all(isinstance(a, Const) for a in args):
             try:
                 v = getattr(fval[1].v, fval[2])(*[a.v for a in args])
